@@ -29,6 +29,8 @@ def gen_cases(rng, n, n_adv, n_ship=0):
     cases += [{"seed": rng.randrange(1 << 30), "stream": "adversarial"} for _ in range(n_adv)]
     for which in ("last", "first", "last", "first"):
         cases.append({"seed": rng.randrange(1 << 30), "stream": "friendly", "edge": which})
+    for strands in ("++", "--", "++", "+-"):       # a variant on the last base before the break region of a left fusion, planted with the fusion
+        cases.append({"seed": rng.randrange(1 << 30), "stream": "friendly", "before_break": strands})
     import shipdesc
     for k in range(n_ship):
         cases.append({"seed": rng.randrange(1 << 30), "stream": "shipped", "gene": shipdesc.SMALL[k % len(shipdesc.SMALL)],
@@ -135,8 +137,9 @@ def run_case(case):
             yml, desc, _g = shipdesc.desc_from_gene(case["gene"], build, case["seed"])
             desc["opts"] = {"refseq_span": "gene"}
         else:
+            extra_opts = {"fusions": ("left",), "pseudogene": True, "strands": case["before_break"]} if case.get("before_break") else {}
             yml, desc = gendb.write_db(d, rng, n_alleles=rng.randint(3, 9), simulation_friendly=friendly,
-                                       length=rng.randint(300, 1600), deletion=(rng.random() < 0.7))
+                                       length=rng.randint(300, 1600), deletion=(rng.random() < 0.7), **extra_opts)
             build = rng.choice(["hg19", "hg38"])
         L = rng.choice([50, 75, 100, 150, 200, 250]) if case["stream"] != "shipped" else rng.choice([100, 150])
         depth = rng.choice([20, 25, 30]) if L not in (75,) else 25
@@ -164,6 +167,13 @@ def run_case(case):
                 alleles = [rng.choice(withvar), rng.choice(withvar if rng.random() < 0.6 else names)]
         else:
             kind, alleles = plant(rng, desc)
+            if case.get("before_break"):
+                # region labels at a region border decide the copy number there: a variant on the last base before the break region
+                # of a left fusion (a region the fusion does not retain), on both normal copies, next to a fusion hybrid
+                pb = gendb.plant_before_break_allele(desc, yml, salt=case["seed"])
+                bare = [a for a, v in desc["alleles"].items() if v["kind"] == "normal" and not v["variants"]]
+                if pb is not None and bare and not desc["alleles"][pb[1]]["functional"]:
+                    kind, alleles = "before-break", [pb[0], pb[1] + "#" + bare[0], pb[0] if rng.random() < 0.6 else bare[0]]
             if case.get("edge"):
                 # an allele defined on the first / last base of the RefSeq mapping: the outermost aligned genome base, where the
                 # window tests of the loader (sam.py:584-589) decide whether an observation is a variant or folded into the reference
